@@ -1,8 +1,9 @@
-(* C17 — part f: the directives-only C pass against the ordinary C pass.
-   On a text without backslashes whose # lines satisfy the scanner's guards ([cwf]):
-   - if the non-directive lines hold no / ' " the two passes are the same
+(* C17 — part f: the directives-only C pass against the ordinary C pass
+   (c_file_source as used for .c files), on well-formed texts.
+   - if the lines of Fortran text hold no / ' " the two passes are the same
      function ([c_source_flag]);
-   - replacing every / ' " of the non-directive lines by a letter ([mask])
+   - replacing every / ' " of the Fortran-text lines by a letter ([mask];
+     directive lines, including their continuation lines, are left alone)
      changes neither the directive lines (numbers, text) nor the physical lines
      and categories of the other logical lines ([c_source_mask]).
    Hence the directive lines of a Fortran file are those the ORDINARY C scanner
@@ -11,52 +12,34 @@ From Coq Require Import NArith Bool Ascii String List.
 From CBI Require Import Lib.Res Model.C17 Spec.C17 Proofs.C17a Proofs.C17b Proofs.C17c Proofs.C17d.
 Import ListNotations.
 
-Definition is_dirline (cs : list ascii) : bool := match fnb cs with Some kh => is_hashk kh | None => false end.
-(* a # line on its own: the guards of Spec/C17.v do not depend on the Fortran context *)
-Definition dir_ok (cs : list ascii) : bool := cguards (SBol K0, mU) cs && eguard (sfold (SBol K0, mU) cs).
-Definition cwf_line (cs : list ascii) : bool := nobs cs && (if is_dirline cs then dir_ok cs else true).
-Definition cwf (ls : list pline) : bool := forallb (fun pl => cwf_line (fst pl)) ls.
-
 Definition inertk (k : cls) : bool := match k with kSl | kDq | kSq => false | _ => true end.
-Definition inert_line (cs : list ascii) : bool := if is_dirline cs then true else forallb (fun c => inertk (cls_of c)) cs.
-Definition inert (ls : list pline) : bool := forallb (fun pl => inert_line (fst pl)) ls.
+Definition inert_cs (cs : list ascii) : bool := forallb (fun c => inertk (cls_of c)) cs.
+Fixpoint inert_from (c : lctx) (ls : list pline) : bool :=
+  match ls with
+  | [] => true
+  | (cs, _) :: r => (if dirmode c cs then true else inert_cs cs) && inert_from (snext (lline c cs)) r
+  end.
+Definition inert (ls : list pline) : bool := inert_from (LF K0) ls.
 
 Definition maskc (c : ascii) : ascii := if inertk (cls_of c) then c else "a"%char.
-Definition mask_line (cs : list ascii) : list ascii := if is_dirline cs then cs else map maskc cs.
-Definition mask (ls : list pline) : list pline := map (fun pl => (mask_line (fst pl), snd pl)) ls.
+Fixpoint mask_from (c : lctx) (ls : list pline) : list pline :=
+  match ls with
+  | [] => []
+  | (cs, nl) :: r => ((if dirmode c cs then cs else map maskc cs), nl) :: mask_from (snext (lline c cs)) r
+  end.
+Definition mask (ls : list pline) : list pline := mask_from (LF K0) ls.
 
-(* ---------- one line, either flag ---------- *)
-Lemma cproc_plain_d d cs : forall b, nobs cs = true -> (d = false -> forallb (fun c => inertk (cls_of c)) cs = true) ->
-  (is_blank b = true -> fnb cs <> Some kHash) ->
-  cprocess d ([CTop], b) cs = Ok ([CTop], fold_char cs b).
-Proof.
-  induction cs as [|c cs IH]; intros b HN HI HB; [reflexivity|].
-  cbn [nobs forallb] in HN. apply andb_true_iff in HN. destruct HN as [N1 N2]. fold (nobs cs) in N2.
-  assert (I1 : d = false -> inertk (cls_of c) = true).
-  { intros D. specialize (HI D). cbn [forallb] in HI. apply andb_true_iff in HI. exact (proj1 HI). }
-  assert (I2 : d = false -> forallb (fun c => inertk (cls_of c)) cs = true).
-  { intros D. specialize (HI D). cbn [forallb] in HI. apply andb_true_iff in HI. exact (proj2 HI). }
-  cbn [cprocess].
-  assert (E : cstep d ([CTop], b) c = Ok ([CTop], app_char c b)).
-  { unfold cstep, cstep1. unfold is_bs in N1. destruct (cls_of c) eqn:K; try reflexivity; try discriminate;
-      try (destruct d; [reflexivity|specialize (I1 eq_refl); discriminate]).
-    destruct (is_blank b) eqn:BL; [|reflexivity]. exfalso. apply (HB eq_refl). cbn [fnb]. rewrite K. reflexivity. }
-  rewrite E. cbn [fold_char fold_left]. apply IH; [exact N2|exact I2|].
-  intros BL. destruct (is_ws (cls_of c)) eqn:W.
-  - cbn [fnb] in HB. rewrite W in HB. apply HB. exact (blank_char_ws c b W BL).
-  - rewrite (blank_char_nonws c b W) in BL. discriminate.
-Qed.
-
+(* ---------- the flag does not matter inside a directive ---------- *)
 Lemma cstep_dir_flag fl d c b : cstep fl (dstack d, b) c = cstep true (dstack d, b) c.
 Proof. destruct d; unfold cstep, cstep1, dstack; destruct (cls_of c); reflexivity. Qed.
 
-Lemma cproc_in_dir_flag fl cs : forall d b k m, category b = CPPDIR -> cguards (SDir k d, m) cs = true ->
+Lemma cproc_in_dir_flag fl cs : forall d b m k, cguards (SDir k d, m) cs = true ->
   cprocess fl (dstack d, b) cs = cprocess true (dstack d, b) cs.
 Proof.
-  induction cs as [|c cs IH]; intros d b k m HC HG; [reflexivity|].
+  induction cs as [|c cs IH]; intros d b m k HG; [reflexivity|].
   cbn [cguards] in HG. apply andb_true_iff in HG. destruct HG as [G1 G2]. cbn [sstep] in G2.
-  cbn [cprocess]. rewrite cstep_dir_flag. destruct (cstep_dir true d c b k m HC G1) as [b1 [E1 E2]]. rewrite E1.
-  exact (IH _ b1 k m E2 G2).
+  cbn [cprocess]. rewrite cstep_dir_flag. destruct (cstep_dir true d c b k m G1) as [b1 [E1 _]]. rewrite E1.
+  exact (IH _ b1 _ k G2).
 Qed.
 
 Lemma cproc_dir_flag fl cs : forall b k, fresh b = true -> fnb cs = Some kHash -> cguards (SBol k, mU) cs = true ->
@@ -74,60 +57,87 @@ Proof.
     assert (E : forall d', cstep d' ([CTop], b) c = Ok ([CCpp; CTop], app_non c b)).
     { intros d'. unfold cstep, cstep1. rewrite HH, (fresh_blank b HF). reflexivity. }
     rewrite !E. rewrite HH in G2. cbn [sstep] in G2.
-    apply (cproc_in_dir_flag fl cs DTxt _ k mM); [apply cat_hash_blank; [exact HH|apply fresh_blank; exact HF]|exact G2].
+    exact (cproc_in_dir_flag fl cs DTxt _ mM k G2).
 Qed.
 
-Lemma is_dirline_hash cs : is_dirline cs = true -> fnb cs = Some kHash.
-Proof. unfold is_dirline. destruct (fnb cs) as [[]|]; try discriminate; reflexivity. Qed.
-Lemma is_dirline_nohash cs : is_dirline cs = false -> fnb cs <> Some kHash.
-Proof. unfold is_dirline. intros H E. rewrite E in H. discriminate. Qed.
-
-(* c_line does not depend on the flag, and has the shape of [cout_ok] *)
-Lemma c_line_d d n out cs nl : cwf_line cs = true -> (d = false -> inert_line cs = true) ->
-  exists l, c_line d n (clean out) (cs, nl) = Ok (clean (out ++ l)) /\
-            c_line true n (clean out) (cs, nl) = Ok (clean (out ++ l)) /\ cout_ok n cs l.
+Lemma c_line_dir_flag fl n c cur lines out cs nl :
+  dirmode c cs = true -> cguards (start_state c) (fst (split_cont cs)) = true ->
+  c_line fl n (cstate_of c cur lines out) (cs, nl) = c_line true n (cstate_of c cur lines out) (cs, nl).
 Proof.
-  intros HW HI. unfold cwf_line in HW. apply andb_true_iff in HW. destruct HW as [HN HL].
-  unfold inert_line in HI.
-  unfold c_line. rewrite (body_nobs cs HN). cbn [andb negb clean cl_stk cl_cur cl_lines cl_out].
-  unfold cout_ok. destruct (is_dirline cs) eqn:DL.
-  - pose proof (is_dirline_hash cs DL) as F. rewrite F. cbn [is_hashk].
-    unfold dir_ok in HL. apply andb_true_iff in HL. destruct HL as [HG HE].
-    rewrite (cproc_dir_flag d cs osl0 K0 eq_refl F HG).
-    destruct (cproc_dir true cs osl0 K0 eq_refl F HG) as [ds [b' [E1 [E3 ES]]]].
-    rewrite E1. rewrite ES in HE. destruct (dir_newline ds b' K0 mM HE E3) as [T1 [b2 [T2 T3]]]. rewrite T1. cbn [negb]. rewrite T2.
-    cbn [top_is_block negb]. unfold cflush. rewrite join0_cat, T3.
-    unfold is_blank. rewrite T3. cbn [app].
-    eexists. split; [reflexivity|]. split; [reflexivity|]. eexists. reflexivity.
-  - pose proof (is_dirline_nohash cs DL) as F.
-    rewrite (cproc_plain_d d cs osl0 HN HI (fun _ => F)).
-    rewrite (cproc_plain_d true cs osl0 HN (fun D => False_ind _ (diff_true_false D)) (fun _ => F)).
-    cbn [top_is_block negb cnewline]. unfold cflush. rewrite join0_cat.
-    rewrite (cat_fold_char cs osl0 eq_refl). unfold is_blank. rewrite (cat_fold_char cs osl0 eq_refl).
-    unfold is_dirline in DL. destruct (fnb cs) as [kh|] eqn:FK.
-    + rewrite DL. cbn [app]. rewrite join0_parts, fold_char_parts. cbn [parts trailing osl0 app].
-      eexists. split; [reflexivity|]. split; reflexivity.
-    + exists []. rewrite app_nil_r. split; [reflexivity|]. split; reflexivity.
+  intros HD HG. rewrite !c_line_unfold. cbv zeta.
+  assert (E : cprocess fl (cl_stk (cstate_of c cur lines out), osl0) (fst (split_cont cs)) =
+              cprocess true (cl_stk (cstate_of c cur lines out), osl0) (fst (split_cont cs))).
+  { destruct c as [k|k d]; cbn [cstate_of clean cl_stk start_state] in *.
+    - unfold dirmode in HD. cbn [is_ld orb] in HD. unfold is_dirbody in HD.
+      destruct (fnb (fst (split_cont cs))) as [kh|] eqn:F; [|discriminate].
+      assert (kh = kHash) by (destruct kh; try discriminate; reflexivity). subst kh.
+      exact (cproc_dir_flag fl _ osl0 k eq_refl F HG).
+    - exact (cproc_in_dir_flag fl _ d osl0 mU k HG). }
+  rewrite E. reflexivity.
 Qed.
 
-Lemma c_loop_d d ls : forall n out, cwf ls = true -> (d = false -> inert ls = true) ->
-  c_lines_loop d n (clean out) ls = c_lines_loop true n (clean out) ls.
+(* ---------- a line of Fortran text ---------- *)
+Lemma cproc_plain_d d cs : forall b, nobs cs = true -> (d = false -> inert_cs cs = true) ->
+  (is_blank b = true -> fnb cs <> Some kHash) ->
+  cprocess d ([CTop], b) cs = Ok ([CTop], fold_char cs b).
 Proof.
-  induction ls as [|[cs nl] r IH]; intros n out HW HI; [reflexivity|].
-  cbn [cwf forallb fst] in HW. apply andb_true_iff in HW. destruct HW as [W1 W2]. fold (cwf r) in W2.
-  assert (I1 : d = false -> inert_line cs = true).
-  { intros D. specialize (HI D). cbn [inert forallb fst] in HI. apply andb_true_iff in HI. exact (proj1 HI). }
-  assert (I2 : d = false -> inert r = true).
-  { intros D. specialize (HI D). cbn [inert forallb fst] in HI. apply andb_true_iff in HI. exact (proj2 HI). }
-  destruct (c_line_d d n out cs nl W1 I1) as [l [E1 [E2 _]]].
-  cbn [c_lines_loop]. rewrite E1, E2. apply IH; assumption.
+  induction cs as [|c cs IH]; intros b HN HI HB; [reflexivity|].
+  cbn [nobs forallb] in HN. apply andb_true_iff in HN. destruct HN as [N1 N2]. fold (nobs cs) in N2.
+  assert (I1 : d = false -> inertk (cls_of c) = true).
+  { intros D. specialize (HI D). cbn [inert_cs forallb] in HI. apply andb_true_iff in HI. exact (proj1 HI). }
+  assert (I2 : d = false -> inert_cs cs = true).
+  { intros D. specialize (HI D). cbn [inert_cs forallb] in HI. apply andb_true_iff in HI. exact (proj2 HI). }
+  cbn [cprocess].
+  assert (E : cstep d ([CTop], b) c = Ok ([CTop], app_char c b)).
+  { unfold cstep, cstep1. unfold is_bs in N1. destruct (cls_of c) eqn:K; try reflexivity; try discriminate;
+      try (destruct d; [reflexivity|specialize (I1 eq_refl); discriminate]).
+    destruct (is_blank b) eqn:BL; [|reflexivity]. exfalso. apply (HB eq_refl). cbn [fnb]. rewrite K. reflexivity. }
+  rewrite E. cbn [fold_char fold_left]. apply IH; [exact N2|exact I2|].
+  intros BL. destruct (is_ws (cls_of c)) eqn:W.
+  - cbn [fnb] in HB. rewrite W in HB. apply HB. exact (blank_char_ws c b W BL).
+  - rewrite (blank_char_nonws c b W) in BL. discriminate.
 Qed.
 
-Theorem c_source_flag ls : cwf ls = true -> inert ls = true -> c_source false ls = c_source true ls.
+Lemma c_line_plain_flag n out cs nl : nobs cs = true -> fnb cs <> Some kHash -> inert_cs cs = true ->
+  c_line false n (clean out) (cs, nl) = c_line true n (clean out) (cs, nl).
+Proof.
+  intros HN HF HI. rewrite !c_line_unfold, (body_nobs cs HN). cbn [fst snd andb negb clean cl_stk].
+  rewrite (cproc_plain_d false cs osl0 HN (fun _ => HI) (fun _ => HF)).
+  rewrite (cproc_plain cs osl0 HN (fun _ => HF)). reflexivity.
+Qed.
+
+(* ---------- whole files ---------- *)
+Lemma c_loop_flag ls : forall n c cur lines out, wf_from c ls = true -> cinv c cur lines -> inert_from c ls = true ->
+  c_lines_loop false n (cstate_of c cur lines out) ls = c_lines_loop true n (cstate_of c cur lines out) ls.
+Proof.
+  induction ls as [|[cs nl] r IH]; intros n c cur lines out HW HI HN; [reflexivity|].
+  cbn [wf_from] in HW. apply andb_true_iff in HW. destruct HW as [HW W3].
+  apply andb_true_iff in HW. destruct HW as [W1 W2].
+  cbn [inert_from] in HN. apply andb_true_iff in HN. destruct HN as [N1 N2].
+  cbn [c_lines_loop]. destruct (dirmode c cs) eqn:DM.
+  - rewrite (c_line_dir_flag false n c cur lines out cs nl DM W1).
+    pose proof (c_line_dirmode true n c cur lines out cs nl DM HI W1 W2) as HC. cbv zeta in HC.
+    destruct (snext (lline c cs)) as [k'|k' d'] eqn:SN.
+    + destruct HC as [txt [E1 _]]. rewrite E1.
+      exact (IH (S n) (LF k') osl0 [] _ W3 eq_refl N2).
+    + destruct HC as [cur' [E1 [E2 [E3 _]]]]. rewrite E1.
+      exact (IH (S n) (LD k' d') cur' _ out W3 (conj E2 E3) N2).
+  - assert (HL' : lguard (lline c cs) true = true \/ lguard (lline c cs) false = true)
+      by (destruct nl; [left|right]; exact W2).
+    destruct (dirmode_false_plain c cs DM W1 HL') as [k [EC [HB [HF [HLL ND]]]]]. subst c.
+    cbn [cstate_of]. rewrite (c_line_plain_flag n out cs nl HB HF N1).
+    destruct (c_line_plain n out cs nl HB HF) as [l [E1 _]]. rewrite E1.
+    assert (SN : snext (lline (LF k) cs) = LF (seol (fst (sfold (SBol k, mU) cs)))).
+    { rewrite HLL. destruct (sfold (SBol k, mU) cs) as [q m]. apply snext_plain. exact ND. }
+    rewrite SN in W3, N2.
+    exact (IH (S n) (LF _) osl0 [] (out ++ l) W3 eq_refl N2).
+Qed.
+
+Theorem c_source_flag ls : wf ls = true -> inert ls = true -> c_source false ls = c_source true ls.
 Proof.
   intros HW HI. unfold c_source.
-  change {| cl_stk := [CTop]; cl_cur := osl0; cl_lines := []; cl_out := [] |} with (clean []).
-  rewrite (c_loop_d false ls 1 [] HW (fun _ => HI)). reflexivity.
+  change {| cl_stk := [CTop]; cl_cur := osl0; cl_lines := []; cl_out := [] |} with (cstate_of (LF K0) osl0 [] []).
+  rewrite (c_loop_flag ls 1 (LF K0) osl0 [] [] HW eq_refl HI). reflexivity.
 Qed.
 
 (* ---------- masking ---------- *)
@@ -140,36 +150,20 @@ Proof. unfold maskc, is_bs. destruct (inertk (cls_of c)) eqn:I; [reflexivity|]. 
 Lemma maskc_inert c : inertk (cls_of (maskc c)) = true.
 Proof. unfold maskc. destruct (inertk (cls_of c)) eqn:I; [exact I|reflexivity]. Qed.
 
-Lemma fnb_mask cs : is_dirline (map maskc cs) = is_dirline cs /\
+Lemma fnb_mask cs : (fnb (map maskc cs) = Some kHash <-> fnb cs = Some kHash) /\
   (fnb (map maskc cs) = None <-> fnb cs = None).
 Proof.
-  unfold is_dirline. induction cs as [|c cs IH]; [split; [reflexivity|split; intros H; exact H]|].
+  induction cs as [|c cs IH]; [split; split; intros H; exact H|].
   cbn [map fnb]. rewrite maskc_ws. destruct (is_ws (cls_of c)); [exact IH|].
-  split; [apply maskc_hash|split; discriminate].
+  pose proof (maskc_hash c) as HH. split; split; intros H; try discriminate.
+  - injection H as H. rewrite H in HH. cbn in HH. destruct (cls_of c); try discriminate; reflexivity.
+  - injection H as H. rewrite H in HH. cbn in HH. destruct (cls_of (maskc c)); try discriminate; reflexivity.
 Qed.
 
 Lemma nobs_mask cs : nobs (map maskc cs) = nobs cs.
 Proof. unfold nobs. induction cs as [|c cs IH]; [reflexivity|]. cbn [map forallb]. rewrite maskc_bs, IH. reflexivity. Qed.
-
-Lemma cwf_mask_line cs : cwf_line cs = true -> cwf_line (mask_line cs) = true /\ inert_line (mask_line cs) = true /\
-  is_dirline (mask_line cs) = is_dirline cs.
-Proof.
-  intros HW. unfold mask_line. destruct (is_dirline cs) eqn:DL.
-  - split; [exact HW|]. split; [unfold inert_line; rewrite DL; reflexivity|exact DL].
-  - destruct (fnb_mask cs) as [F1 F2]. rewrite DL in F1.
-    unfold cwf_line in *. rewrite DL in HW. rewrite F1, nobs_mask. split; [exact HW|]. split; [|reflexivity].
-    unfold inert_line. rewrite F1. clear. induction cs as [|c cs IH]; [reflexivity|].
-    cbn [map forallb]. rewrite maskc_inert, IH. reflexivity.
-Qed.
-
-Lemma cwf_mask ls : cwf ls = true -> cwf (mask ls) = true /\ inert (mask ls) = true.
-Proof.
-  induction ls as [|[cs nl] r IH]; intros HW; [split; reflexivity|].
-  cbn [cwf forallb fst] in HW. apply andb_true_iff in HW. destruct HW as [W1 W2]. fold (cwf r) in W2.
-  destruct (cwf_mask_line cs W1) as [A [B _]]. destruct (IH W2) as [C D].
-  cbn [mask map cwf inert forallb fst]. fold (mask r). fold (cwf (mask r)). fold (inert (mask r)).
-  rewrite A, B, C, D. split; reflexivity.
-Qed.
+Lemma inert_mask cs : inert_cs (map maskc cs) = true.
+Proof. unfold inert_cs. induction cs as [|c cs IH]; [reflexivity|]. cbn [map forallb]. rewrite maskc_inert, IH. reflexivity. Qed.
 
 Definition strip (l : cll) : list nat * cat := (c_lines l, c_cat l).
 
@@ -179,110 +173,100 @@ Lemma c_line_out d n st cur lines out pl s' :
     forall out', c_line d n {| cl_stk := st; cl_cur := cur; cl_lines := lines; cl_out := out' |} pl =
                  Ok {| cl_stk := cl_stk s'; cl_cur := cl_cur s'; cl_lines := cl_lines s'; cl_out := out' ++ suf |}.
 Proof.
-  unfold c_line. destruct pl as [txt nl].
-  destruct (match split_last txt with
-            | Some (i, z) => if is_bs z then (i, true) else (txt, false)
-            | None => (txt, false)
-            end) as [body continued].
-  cbn [cl_stk cl_cur cl_lines cl_out].
-  destruct (continued && negb nl); [discriminate|].
-  destruct (cprocess d (st, osl0) body) as [[st1 b1]|]; [|discriminate].
-  destruct (if negb continued && negb (top_is_block st1) then cnewline (st1, b1) else Ok (st1, b1)) as [[st2 b2]|]; [|discriminate].
-  destruct (negb continued && negb (top_is_block st2)); intros E; injection E as E; subst s'; cbn [cl_stk cl_cur cl_lines cl_out].
-  - unfold cflush. destruct (category (join cur b2)).
-    + exists []. split; [rewrite app_nil_r; reflexivity|]. intros out'. rewrite app_nil_r. reflexivity.
-    + eexists. split; [reflexivity|]. intros out'. reflexivity.
-    + eexists. split; [reflexivity|]. intros out'. reflexivity.
-  - exists []. split; [rewrite app_nil_r; reflexivity|]. intros out'. rewrite app_nil_r. reflexivity.
+  destruct pl as [txt nl]. intros E. rewrite c_line_unfold in E. cbv zeta in E. cbn [cl_stk cl_cur cl_lines cl_out] in E.
+  destruct (snd (split_cont txt) && negb nl) eqn:EX; [discriminate|].
+  destruct (cprocess d (st, osl0) (fst (split_cont txt))) as [[st1 b1]|] eqn:EP; [|discriminate].
+  destruct (if negb (snd (split_cont txt)) && negb (top_is_block st1) then cnewline (st1, b1) else Ok (st1, b1)) as [[st2 b2]|] eqn:EN; [|discriminate].
+  destruct (negb (snd (split_cont txt)) && negb (top_is_block st2)) eqn:EF; injection E as E; subst s'; cbn [cl_stk cl_cur cl_lines cl_out].
+  - unfold cflush. destruct (category (join cur b2)) eqn:EC.
+    + exists []. split; [rewrite app_nil_r; reflexivity|]. intros out'. rewrite c_line_unfold. cbv zeta.
+      cbn [cl_stk cl_cur cl_lines cl_out]. rewrite EX, EP, EN, EF. unfold cflush. rewrite EC, app_nil_r. reflexivity.
+    + eexists. split; [reflexivity|]. intros out'. rewrite c_line_unfold. cbv zeta.
+      cbn [cl_stk cl_cur cl_lines cl_out]. rewrite EX, EP, EN, EF. unfold cflush. rewrite EC. reflexivity.
+    + eexists. split; [reflexivity|]. intros out'. rewrite c_line_unfold. cbv zeta.
+      cbn [cl_stk cl_cur cl_lines cl_out]. rewrite EX, EP, EN, EF. unfold cflush. rewrite EC. reflexivity.
+  - exists []. split; [rewrite app_nil_r; reflexivity|]. intros out'. rewrite c_line_unfold. cbv zeta.
+    cbn [cl_stk cl_cur cl_lines cl_out]. rewrite EX, EP, EN, EF, app_nil_r. reflexivity.
 Qed.
 
-Lemma c_line_mask n out out' cs nl : cwf_line cs = true ->
-  exists l l', c_line true n (clean out) (cs, nl) = Ok (clean (out ++ l)) /\
-               c_line true n (clean out') (mask_line cs, nl) = Ok (clean (out' ++ l')) /\
-               filter cdir l' = filter cdir l /\ map strip l' = map strip l.
-Proof.
-  intros HW. destruct (cwf_mask_line cs HW) as [A [_ DLm]].
-  unfold mask_line in *. destruct (is_dirline cs) eqn:DL.
-  - destruct (c_line_d true n out cs nl HW (fun D => False_ind _ (diff_true_false D))) as [l [E1 [_ _]]].
-    destruct (c_line_d true n out' cs nl HW (fun D => False_ind _ (diff_true_false D))) as [l2 [E2 [_ C2]]].
-    (* the same line through the same function: the outputs differ only in the accumulated prefix *)
-    assert (EQ : l2 = l).
-    { destruct (c_line_out true n [CTop] osl0 [] out (cs, nl) _ E1) as [suf [S1 S2]].
-      cbn [clean cl_out] in S1. apply app_inv_head in S1. subst suf.
-      specialize (S2 out'). unfold clean in E2. rewrite S2 in E2. injection E2 as E2.
-      apply app_inv_head in E2. symmetry. exact E2. }
-    subst l2. exists l, l. repeat split; assumption.
-  - destruct (c_line_d true n out cs nl HW (fun D => False_ind _ (diff_true_false D))) as [l [E1 [_ C1]]].
-    destruct (c_line_d true n out' (map maskc cs) nl A (fun D => False_ind _ (diff_true_false D))) as [l' [E2 [_ C2]]].
-    exists l, l'. split; [exact E1|]. split; [exact E2|].
-    unfold cout_ok in C1, C2. destruct (fnb_mask cs) as [F1 F2]. unfold is_dirline in DL, DLm, F1.
-    destruct (fnb cs) as [kh|] eqn:FK; destruct (fnb (map maskc cs)) as [kh'|] eqn:FK'.
-    + rewrite DL in C1. rewrite DLm in C2. subst l l'. split; reflexivity.
-    + exfalso. destruct F2 as [F2 _]. specialize (F2 eq_refl). discriminate.
-    + exfalso. destruct F2 as [_ F2]. specialize (F2 eq_refl). discriminate.
-    + subst l l'. split; reflexivity.
-Qed.
+Lemma cstate_of_out c cur lines out : cl_out (cstate_of c cur lines out) = out.
+Proof. destruct c; reflexivity. Qed.
 
-Lemma c_loop_mask ls : forall n out out', cwf ls = true ->
-  exists L L', c_lines_loop true n (clean out) ls = Ok (clean (out ++ L)) /\
-               c_lines_loop true n (clean out') (mask ls) = Ok (clean (out' ++ L')) /\
+Lemma c_loop_mask ls : forall n c cur lines out out', wf_from c ls = true -> cinv c cur lines ->
+  exists L L', c_lines_loop true n (cstate_of c cur lines out) ls = Ok (clean (out ++ L)) /\
+               c_lines_loop false n (cstate_of c cur lines out') (mask_from c ls) = Ok (clean (out' ++ L')) /\
                filter cdir L' = filter cdir L /\ map strip L' = map strip L.
 Proof.
-  induction ls as [|[cs nl] r IH]; intros n out out' HW.
-  - exists [], []. rewrite !app_nil_r. repeat split; reflexivity.
-  - cbn [cwf forallb fst] in HW. apply andb_true_iff in HW. destruct HW as [W1 W2]. fold (cwf r) in W2.
-    destruct (c_line_mask n out out' cs nl W1) as [l [l' [E1 [E2 [E3 E4]]]]].
-    destruct (IH (S n) (out ++ l) (out' ++ l') W2) as [L [L' [E5 [E6 [E7 E8]]]]].
-    exists (l ++ L), (l' ++ L'). cbn [mask map c_lines_loop fst snd]. fold (mask r).
-    rewrite E1, E2, E5, E6, !app_assoc, !filter_app, !map_app, E3, E4, E7, E8. repeat split; reflexivity.
+  induction ls as [|[cs nl] r IH]; intros n c cur lines out out' HW HI.
+  - cbn [wf_from] in HW. destruct c as [[]|]; try discriminate.
+    exists [], []. rewrite !app_nil_r. repeat split; reflexivity.
+  - cbn [wf_from] in HW. apply andb_true_iff in HW. destruct HW as [HW W3].
+    apply andb_true_iff in HW. destruct HW as [W1 W2].
+    cbn [c_lines_loop mask_from]. destruct (dirmode c cs) eqn:DM.
+    + rewrite (c_line_dir_flag false n c cur lines out' cs nl DM W1).
+      pose proof (c_line_dirmode true n c cur lines out cs nl DM HI W1 W2) as HC. cbv zeta in HC.
+      destruct (snext (lline c cs)) as [k'|k' d'] eqn:SN.
+      * destruct HC as [txt [E1 _]]. rewrite E1.
+        assert (E1' : c_line true n (cstate_of c cur lines out') (cs, nl) =
+                      Ok (clean (out' ++ [{| c_lines := if is_dircls (classify (lline c cs)) then lines ++ [n] else lines;
+                                             c_cat := CPPDIR; c_text := txt |}]))).
+        { destruct c as [k|k d]; cbn [cstate_of clean] in E1 |- *;
+            destruct (c_line_out _ _ _ _ _ _ _ _ E1) as [suf [S1 S2]]; cbn [cl_out clean] in S1;
+            apply app_inv_head in S1; subst suf; exact (S2 out'). }
+        rewrite E1'.
+        destruct (IH (S n) (LF k') osl0 [] (out ++ [{| c_lines := if is_dircls (classify (lline c cs)) then lines ++ [n] else lines;
+                                                      c_cat := CPPDIR; c_text := txt |}])
+                     (out' ++ [{| c_lines := if is_dircls (classify (lline c cs)) then lines ++ [n] else lines;
+                                  c_cat := CPPDIR; c_text := txt |}]) W3 eq_refl) as [L [L' [E3 [E4 [E5 E6]]]]].
+        cbn [cstate_of] in E3, E4. rewrite E3, E4, <- !app_assoc.
+        eexists. eexists. split; [reflexivity|]. split; [reflexivity|].
+        cbn [app filter cdir c_cat cat_eqb map]. rewrite E5, E6. split; reflexivity.
+      * destruct HC as [cur' [E1 [E2 [E3 _]]]]. rewrite E1.
+        assert (E1' : c_line true n (cstate_of c cur lines out') (cs, nl) =
+                      Ok {| cl_stk := dstack d'; cl_cur := cur';
+                            cl_lines := if is_dircls (classify (lline c cs)) then lines ++ [n] else lines; cl_out := out' |}).
+        { destruct c as [k|k d]; cbn [cstate_of clean] in E1 |- *;
+            destruct (c_line_out _ _ _ _ _ _ _ _ E1) as [suf [S1 S2]]; cbn [cl_out] in S1;
+            rewrite <- (app_nil_r out) in S1 at 1; apply app_inv_head in S1; subst suf;
+            specialize (S2 out'); rewrite app_nil_r in S2; exact S2. }
+        rewrite E1'.
+        destruct (IH (S n) (LD k' d') cur' (if is_dircls (classify (lline c cs)) then lines ++ [n] else lines) out out' W3 (conj E2 E3))
+          as [L [L' [E4 [E5 [E6 E7]]]]].
+        cbn [cstate_of] in E4, E5. rewrite E4, E5. exists L, L'. repeat split; assumption.
+    + assert (HL' : lguard (lline c cs) true = true \/ lguard (lline c cs) false = true)
+        by (destruct nl; [left|right]; exact W2).
+      destruct (dirmode_false_plain c cs DM W1 HL') as [k [EC [HB [HF [HLL ND]]]]]. subst c.
+      cbn [cstate_of].
+      destruct (fnb_mask cs) as [FM1 FM2].
+      assert (HFm : fnb (map maskc cs) <> Some kHash) by (intros F; apply HF; apply FM1; exact F).
+      assert (HBm : nobs (map maskc cs) = true) by (rewrite nobs_mask; exact HB).
+      rewrite (c_line_plain_flag n out' (map maskc cs) nl HBm HFm (inert_mask cs)).
+      destruct (c_line_plain n out cs nl HB HF) as [l [E1 C1]]. rewrite E1.
+      destruct (c_line_plain n out' (map maskc cs) nl HBm HFm) as [l' [E2 C2]]. rewrite E2.
+      assert (SN : snext (lline (LF k) cs) = LF (seol (fst (sfold (SBol k, mU) cs)))).
+      { rewrite HLL. destruct (sfold (SBol k, mU) cs) as [q m]. apply snext_plain. exact ND. }
+      rewrite SN in *.
+      destruct (IH (S n) (LF (seol (fst (sfold (SBol k, mU) cs)))) osl0 [] (out ++ l) (out' ++ l') W3 eq_refl)
+        as [L [L' [E3 [E4 [E5 E6]]]]].
+      cbn [cstate_of] in E3, E4. rewrite E3, E4, <- !app_assoc.
+      exists (l ++ L), (l' ++ L'). split; [reflexivity|]. split; [reflexivity|].
+      rewrite !filter_app, !map_app, E5, E6.
+      unfold cout_ok in C1, C2.
+      destruct (fnb cs) as [kh|] eqn:FK; destruct (fnb (map maskc cs)) as [kh'|] eqn:FK'.
+      * subst l l'. split; reflexivity.
+      * exfalso. destruct FM2 as [FM2 _]. specialize (FM2 eq_refl). discriminate.
+      * exfalso. destruct FM2 as [_ FM2]. specialize (FM2 eq_refl). discriminate.
+      * subst l l'. split; reflexivity.
 Qed.
 
-Theorem c_source_mask ls : cwf ls = true ->
+Theorem c_source_mask ls : wf ls = true ->
   exists L L', c_source true ls = Ok L /\ c_source false (mask ls) = Ok L' /\
                filter cdir L' = filter cdir L /\ map strip L' = map strip L.
 Proof.
-  intros HW. destruct (cwf_mask ls HW) as [M1 M2].
-  rewrite (c_source_flag (mask ls) M1 M2).
-  destruct (c_loop_mask ls 1 [] [] HW) as [L [L' [E1 [E2 [E3 E4]]]]].
-  exists L, L'. unfold c_source.
-  change {| cl_stk := [CTop]; cl_cur := osl0; cl_lines := []; cl_out := [] |} with (clean []).
+  intros HW. destruct (c_loop_mask ls 1 (LF K0) osl0 [] [] [] HW eq_refl) as [L [L' [E1 [E2 [E3 E4]]]]].
+  exists L, L'. unfold c_source, mask.
+  change {| cl_stk := [CTop]; cl_cur := osl0; cl_lines := []; cl_out := [] |} with (cstate_of (LF K0) osl0 [] []).
   rewrite E1, E2. cbn. repeat split; assumption.
-Qed.
-
-(* ---------- wf implies cwf ---------- *)
-Lemma dir_k_indep2 cs : forall d k k' m,
-  cguards (SDir k d, m) cs = cguards (SDir k' d, m) cs /\
-  eguard (sfold (SDir k d, m) cs) = eguard (sfold (SDir k' d, m) cs).
-Proof.
-  induction cs as [|c cs IH]; intros d k k' m.
-  - split; [reflexivity|]. destruct d; reflexivity.
-  - cbn [cguards]. rewrite !sfold_cons. cbn [sstep]. destruct (IH (dstep d (cls_of c)) k k' m) as [A B].
-    rewrite A, B. split; [|reflexivity]. f_equal; destruct (cls_of c), d; reflexivity.
-Qed.
-
-Lemma dir_k_indep cs : forall k k', fnb cs = Some kHash ->
-  cguards (SBol k, mU) cs = cguards (SBol k', mU) cs /\
-  eguard (sfold (SBol k, mU) cs) = eguard (sfold (SBol k', mU) cs).
-Proof.
-  induction cs as [|c cs IH]; intros k k' HF; [discriminate|].
-  cbn [fnb] in HF. cbn [cguards]. rewrite !sfold_cons. destruct (is_ws (cls_of c)) eqn:W.
-  - assert (E : forall k0, sstep (SBol k0, mU) (cls_of c) = (SBol k0, mU)) by (intros k0; destruct (cls_of c); try discriminate; reflexivity).
-    rewrite !E. destruct (IH k k' HF) as [A B]. rewrite A, B. split; [|reflexivity].
-    f_equal; destruct (cls_of c); try discriminate; reflexivity.
-  - injection HF as HF. rewrite HF. cbn [sstep]. destruct (dir_k_indep2 cs DTxt k k' mM) as [A B].
-    rewrite A, B. split; reflexivity.
-Qed.
-
-Lemma wf_from_cwf ls : forall k, wf_from k ls = true -> cwf ls = true.
-Proof.
-  induction ls as [|[cs nl] r IH]; intros k HW; [reflexivity|].
-  cbn [wf_from] in HW. apply andb_true_iff in HW. destruct HW as [HW W3].
-  apply andb_true_iff in HW. destruct HW as [W1 W2].
-  cbn [cwf forallb fst]. fold (cwf r). rewrite (IH _ W3), andb_true_r.
-  unfold cwf_line. rewrite (cguards_nobs _ _ W1). cbn [andb].
-  destruct (is_dirline cs) eqn:DL; [|reflexivity].
-  destruct (dir_k_indep cs k K0 (is_dirline_hash cs DL)) as [A B].
-  unfold dir_ok. rewrite <- A, <- B, W1. exact W2.
 Qed.
 
 Theorem fortran_directives_as_C_path ls : wf ls = true ->
@@ -291,7 +275,7 @@ Theorem fortran_directives_as_C_path ls : wf ls = true ->
     (forall x, In x F -> fdir x = false -> f_cat x = SRC).
 Proof.
   intros HW. destruct (directives_pass_through ls HW) as [L [F [E1 [E2 [E3 E4]]]]].
-  destruct (c_source_mask ls (wf_from_cwf ls K0 HW)) as [L1 [L' [E5 [E6 [E7 _]]]]].
+  destruct (c_source_mask ls HW) as [L1 [L' [E5 [E6 [E7 _]]]]].
   rewrite E1 in E5. injection E5 as E5. subst L1.
   exists F, L'. split; [exact E2|]. split; [exact E6|]. split; [rewrite E7; exact E3|exact E4].
 Qed.
